@@ -1,6 +1,10 @@
 package props
 
 import (
+	"io"
+	"reflect"
+	"github.com/sirupsen/logrus"
+	naslogger "free5gclib/nas/logger"
 	"sort"
 	"bytes"
 	"fmt"
@@ -426,6 +430,38 @@ func nasRunCase(r *report.Report, l *report.Local, prop string, c nasCase) {
 	} else if d := nasEqual(got, c.a); d != "" {
 		r.Violate(key("roundtrip/value-differs"), cs, d, nil)
 	}
+	// long messages once more with the NAS loggers at their most verbose level (output discarded): what is logged must
+	// not change what is decoded
+	if len(libB) > 200 {
+		lg := naslogger.NasMsgLog.Logger
+		oldOut, oldLevel := lg.Out, lg.Level
+		lg.SetOutput(io.Discard)
+		oldHooks := lg.ReplaceHooks(make(logrus.LevelHooks)) // (the library's file hooks write to ../log)
+		lg.SetLevel(logrus.TraceLevel)
+		got2, derr2 := decode(libB)
+		lg.SetLevel(oldLevel)
+		lg.ReplaceHooks(oldHooks)
+		lg.SetOutput(oldOut)
+		if derr2 != nil {
+			r.Violate(key("roundtrip/decode-error/verbose-logging"), cs, derr2.Error(), nil)
+		} else if d := nasEqual(got2, c.a); d != "" {
+			r.Violate(key("roundtrip/value-differs/verbose-logging"), cs, d, nil)
+		}
+	}
+	// an encode that fails half-way (an IE whose length field exceeds its fixed-size value array: the caller's mistake,
+	// a panic or an error), then the well-formed message again: the failed call must leave nothing behind
+	nasBrokenSeq++
+	if nasBrokenSeq%16 == 0 {
+		if restore, ok := nasBreakLen(reflect.ValueOf(m)); ok {
+			recoverErr(func() { m.PlainNasEncode() })
+			restore()
+			var again []byte
+			var aerr error
+			if perr := recoverErr(func() { again, aerr = m.PlainNasEncode() }); perr != nil || aerr != nil || !bytes.Equal(again, libB) {
+				r.Violate(key("encode-after-a-failed-encode-differs"), cs, fmt.Sprintf("%x then (after a failed encode) %x (%v %v)", libB, again, perr, aerr), nil)
+			}
+		}
+	}
 	// canonical bytes -> decode -> encode
 	m2 := nas.NewMessage()
 	var derr2 error
@@ -468,4 +504,41 @@ func nasUnknownTypes(r *report.Report, tab *refnas.Table) {
 		}
 	}
 	l.Merge()
+}
+
+
+var nasBrokenSeq int
+
+// nasBreakLen finds, in a built message, the first present IE with a Len field and a fixed-size Octet array and sets Len
+// beyond the array; restore undoes it.
+func nasBreakLen(v reflect.Value) (restore func(), ok bool) {
+	switch v.Kind() {
+	case reflect.Ptr, reflect.Interface:
+		if v.IsNil() {
+			return nil, false
+		}
+		return nasBreakLen(v.Elem())
+	case reflect.Struct:
+		var ln, oc reflect.Value
+		if f, ok := v.Type().FieldByName("Len"); ok && len(f.Index) == 1 {
+			ln = v.Field(f.Index[0])
+		}
+		if f, ok := v.Type().FieldByName("Octet"); ok && len(f.Index) == 1 {
+			oc = v.Field(f.Index[0])
+		}
+		if ln.IsValid() && oc.IsValid() && oc.Kind() == reflect.Array && ln.CanSet() && (ln.Kind() == reflect.Uint8 || ln.Kind() == reflect.Uint16) && oc.Len() < 250 {
+			old := ln.Uint()
+			ln.SetUint(uint64(oc.Len() + 3))
+			return func() { ln.SetUint(old) }, true
+		}
+		for i := 0; i < v.NumField(); i++ {
+			if !v.Type().Field(i).IsExported() {
+				continue
+			}
+			if r, ok := nasBreakLen(v.Field(i)); ok {
+				return r, true
+			}
+		}
+	}
+	return nil, false
 }
